@@ -112,11 +112,13 @@ pub struct Scanner {
     dec: hk::Dec,
     in_block: Option<(u8, u32, u8, u32)>, // (type, sid, flags, promised) of the block being assembled
     block: Vec<u8>,
+    /// also report the DATA payload length without padding (`D:sid:fl:len:datalen`)
+    pub detail: bool,
 }
 
 impl Scanner {
     pub fn new(expect_preface: bool) -> Scanner {
-        Scanner { buf: vec![], preface_left: if expect_preface { 24 } else { 0 }, dec: hk::Dec::new(4096), in_block: None, block: vec![] }
+        Scanner { buf: vec![], preface_left: if expect_preface { 24 } else { 0 }, dec: hk::Dec::new(4096), in_block: None, block: vec![], detail: false }
     }
 
     fn fields(&mut self, block: &[u8]) -> String {
@@ -166,7 +168,14 @@ impl Scanner {
                 }
             };
             match ty {
-                0 => out.push(format!("D:{}:{}:{}", sid, fl, len)),
+                0 => {
+                    if self.detail {
+                        let datalen = if fl & 8 != 0 && !p.is_empty() { len.saturating_sub(1 + p[0] as usize) } else { len };
+                        out.push(format!("D:{}:{}:{}:{}", sid, fl, len, datalen));
+                    } else {
+                        out.push(format!("D:{}:{}:{}", sid, fl, len));
+                    }
+                }
                 1 | 5 => {
                     let (promised, frag) = if ty == 5 { (u32at(&p, 0) & 0x7fff_ffff, p[4.min(p.len())..].to_vec()) } else { (0, p.clone()) };
                     if fl & 4 != 0 {
@@ -335,6 +344,7 @@ impl ConnH {
             }
             self.scan = Scanner::new(true);
             self.rx_scan = Scanner::new(false);
+            self.rx_scan.detail = true;
         } else {
             let mut b = h2::server::Builder::new();
             b.reset_stream_duration(std::time::Duration::from_secs(secs));
@@ -361,6 +371,7 @@ impl ConnH {
             }
             self.scan = Scanner::new(false);
             self.rx_scan = Scanner::new(false);
+            self.rx_scan.detail = true;
         }
         self.io = io;
         self.role = role;
@@ -413,6 +424,11 @@ impl ConnH {
     /// DATA frames sitting in the codec's write buffer (already handed over by the stream layer,
     /// not yet fully accepted by the transport): stream ids, one per frame. Read from the dump.
     fn codec_pending_data(&self) -> Vec<u32> {
+        self.codec_pending(0)
+    }
+
+    /// stream ids of the frames of type `want` that sit (completely or partly) in the codec's write buffer
+    fn codec_pending(&self, want: u8) -> Vec<u32> {
         let text = match &self.kind {
             ConnKind::Client(c, _, _) => format!("{:#?}", c),
             ConnKind::Server(c) => format!("{:#?}", c),
@@ -430,7 +446,7 @@ impl ConnH {
                 let ty = bytes[i + 3];
                 let sid = u32::from_be_bytes([bytes[i + 5], bytes[i + 6], bytes[i + 7], bytes[i + 8]]) & 0x7fff_ffff;
                 let end = i + 9 + len;
-                if ty == 0 && end > pos {
+                if ty == want && end > pos {
                     out.push(sid);
                 }
                 i = end;
@@ -600,6 +616,13 @@ impl ConnH {
             ("cn_peer", [h]) => {
                 let b = unhex(h)?;
                 let rx = self.rx_scan.feed(&b);
+                // HEADERS already handed to the codec when a GOAWAY is queued for us: they count as sent
+                let cbh = if rx.iter().any(|f| f.starts_with("G:")) {
+                    let v = self.codec_pending(1);
+                    format!(" cbh={}", if v.is_empty() { "-".to_string() } else { v.iter().map(|x| x.to_string()).collect::<Vec<_>>().join(",") })
+                } else {
+                    String::new()
+                };
                 let mut i = self.io.0.lock().unwrap();
                 i.rd.extend_from_slice(&b);
                 if let Some(w) = i.read_waker.take() {
@@ -607,7 +630,7 @@ impl ConnH {
                     w.wake();
                 }
                 // the frames the peer just sent, as this file's scanner parses them (not h2)
-                format!("ok rx={}", if rx.is_empty() { "-".to_string() } else { rx.join(";") })
+                format!("ok rx={}{}", if rx.is_empty() { "-".to_string() } else { rx.join(";") }, cbh)
             }
             ("cn_eof", []) => {
                 let mut i = self.io.0.lock().unwrap();
